@@ -15,6 +15,9 @@ FUNCS = [
     ('c10_tuple', 'value.tuple', 'tuple<u8, u64>', FULL),
     ('c10_option', 'value.option', 'option<u32>', FULL),
     ('c10_result', 'value.result', 'result<u32, u8>', FULL),
+    ('c10_scalar_record', 'value.scalar_record', 'record { bool, char, s8, s16, s64, f32, f64 }', FULL),
+    ('c10_flags_32_members', 'value.flags_32_members', 'flags with 32 members (bit 31 is a flag)', FULL),
+    ('c10_nested_option', 'value.nested_option', 'option<option<u8>>', FULL),
     ('c10_result_one_payload', 'value.result_one_payload', 'result<u32> and result<_, u8> (one payload type only)', FULL),
     ('c10_flags_enum', 'value.flags_and_enum', 'flags, enum', FULL),
     ('c10_variant_numeric', 'value.variant_numeric_cases', 'variant with u32 / u64 / string cases, numeric cases', FULL),
@@ -25,6 +28,7 @@ FUNCS = [
     ('c10_c11_list_u32', 'value.list_u32', 'list<u32>', HEAP),
     ('c10_c11_list_of_tuples', 'value.list_of_tuples', 'list<tuple<u8, u32, u8>>', HEAP),
     ('c10_c11_list_of_strings', 'value.list_of_strings', 'list<string>', HEAP),
+    ('c10_c11_import_result_list_of_strings', 'value.import_result_list_of_strings', 'list<string> RETURNED by an import', HEAP.replace('export direction', 'import direction')),
     ('c10_c11_record_with_heap_fields', 'value.record_with_heap_fields', 'record { u16, string, list<u8>, u8 }', HEAP),
     ('c10_c11_result_with_string', 'value.result_with_string', 'result<string, u32> (pointer-or-i32 joined slot)', HEAP),
 ]
